@@ -163,6 +163,91 @@ MUTATIONS = [m_drop_write, m_dup_write, m_swap_writes, m_corrupt_type, m_truncat
              m_call_early, m_early_block, m_drop_return, m_drop_close, m_reply_after_quit]
 
 
+# ---- TraceServer (C15 / C19): corrupted lifecycle observations
+
+def s_mut(evs, rng, pred, change):
+    c = [i for i, e in enumerate(evs) if e["ev"] == "obs" and pred(e)]
+    if not c or any(e["ev"] == "infeasible" for e in evs):
+        return None
+    i = rng.choice(c)
+    out = list(evs)
+    out[i] = change(dict(evs[i]))
+    return out
+
+
+def upd(**kw):
+    return lambda e: dict(e, **kw)
+
+
+SERVER_MUTATIONS = {
+    "probe_not_served": lambda evs, rng: s_mut(evs, rng, lambda e: e["kind"] == "probe" and e["phase"] == "running" and e["served"], upd(served=False)),
+    "probe_refused": lambda evs, rng: s_mut(evs, rng, lambda e: e["kind"] == "probe" and e["phase"] == "running" and e["dialed"], upd(dialed=False, served=False)),
+    "port_still_bound": lambda evs, rng: s_mut(evs, rng, lambda e: e["kind"] == "bind" and e["phase"] == "stopped" and e["ok"], upd(ok=False)),
+    "goroutine_left": lambda evs, rng: s_mut(evs, rng, lambda e: e["kind"] == "final" and e["phase"] == "stopped", lambda e: dict(e, goroutines=e["goroutines"] + 1)),
+    "registry_not_empty": lambda evs, rng: s_mut(evs, rng, lambda e: e["kind"] == "final" and e["phase"] == "stopped", lambda e: dict(e, conns=e["conns"] + 1)),
+    "client_open_after_stop": lambda evs, rng: s_mut(evs, rng, lambda e: e["kind"] == "client" and e["phase"] == "stopped" and e["state"] == "eof", upd(state="open")),
+    "registry_lacks_served": lambda evs, rng: s_mut(evs, rng, lambda e: e["kind"] == "registry" and e["phase"] == "running" and not e["parked"] and e["served"],
+                                                    lambda e: dict(e, conns=e["conns"][1:])),
+    "registered_not_served": lambda evs, rng: s_mut(evs, rng, lambda e: e["kind"] == "registry" and e["phase"] == "running" and not e["parked"] and e["served"],
+                                                    lambda e: dict(e, served=e["served"][1:])),
+}
+
+
+def m_ret_err(evs, rng):
+    c = [i for i, e in enumerate(evs) if e["ev"] == "ret" and e["err"] == ""]
+    if not c:
+        return None
+    i = rng.choice(c)
+    out = list(evs)
+    out[i] = dict(evs[i], err="listen tcp :6379: bind: address already in use")
+    return out
+
+
+def server_part(ctx, rng):
+    import c15
+    mc = ctx.tlc("MC_C15", "MC_C15_quick.cfg", name="MC_C15", workers=vlib.NCPU, timeout=1200)
+    scripts = [json.loads(s) for s in mc.scenarios]
+    chosen, _ = c15.select(scripts, 600, rng)
+    accepted, scs, lines = c15.run_scripts(ctx, chosen, "bindlife")
+    base = [sc for sc in scs if sc in accepted]
+    if len(base) < len(scs):
+        raise vlib.Inconclusive("%d of %d lifecycle scripts are rejected: run C15 first" % (len(scs) - len(base), len(scs)))
+    muts = dict(SERVER_MUTATIONS, ret_err=m_ret_err)
+    out = os.path.join(ctx.work, "bind_life_mut.ndjson")
+    made = {}
+    nid = 0
+    with open(out, "w") as f:
+        for name, m in sorted(muts.items()):
+            cands = list(base)
+            rng.shuffle(cands)
+            n = 0
+            for sc in cands:
+                if n >= 100:
+                    break
+                mut = m(events(lines[sc]), rng)
+                if mut is None:
+                    continue
+                nid += 1
+                n += 1
+                made[nid] = (name, sc)
+                for e in mut:
+                    f.write(json.dumps(dict(e, sc=nid), separators=(",", ":")) + "\n")
+    acc2, scs2, lines2 = ctx.validate(out, "TraceServer", stateful=True, constants="CONSTANT Diagnose = FALSE\n")
+    per = {}
+    for k, (name, sc) in made.items():
+        t = per.setdefault("server:" + name, [0, 0])
+        t[0] += 1
+        if k in acc2:
+            t[1] += 1
+            if t[1] <= 2:
+                ctx.violation("corrupted lifecycle trace ACCEPTED by TraceServer (%s applied to script %d)" % (name, sc),
+                              {"mutation": name, "trace": [json.loads(x) for x in lines2[k]][:200]})
+    for name in muts:
+        if "server:" + name not in per:
+            raise vlib.Inconclusive("mutation %s was never applicable (vacuous self-test)" % name)
+    return per, len(scs)
+
+
 def run(ctx):
     ctx.build()
     pipes = ctx.tlc("MC_C03", "MC_C03_quick.cfg", name="MC_C03", workers=vlib.NCPU, timeout=1800)
@@ -206,6 +291,8 @@ def run(ctx):
             if t[1] <= 2:
                 ctx.violation("corrupted trace ACCEPTED by TraceConn (%s applied to scenario %d)" % (name, sc),
                               {"mutation": name, "trace": [json.loads(x) for x in lines2[k]][:200]})
+    sper, nscripts = server_part(ctx, rng)
+    per.update(sper)
     for name, (n, a) in sorted(per.items()):
         print("BIND %-22s corrupted=%4d accepted=%d" % (name, n, a))
         if n == 0:
